@@ -13,7 +13,124 @@ from .normalize import (MAX_DUP_NODES, MUTATORS, NotInlinable, Subst, all_names,
 MAX_UNROLL = 16
 
 
+def lower_suppress(nz, body, fi):
+    """`with contextlib.suppress(E1, E2): BODY` is `try: BODY / except (E1, E2): pass`"""
+    if not has_node(body, ast.With, nested=True):
+        return body
+    f0 = Fold(nz)
+
+    def f(stmts):
+        out = []
+        for s in stmts:
+            if isinstance(s, ast.With) and len(s.items) == 1 and s.items[0].optional_vars is None and isinstance(s.items[0].context_expr, ast.Call) \
+                    and f0._ext(s.items[0].context_expr.func) == "contextlib.suppress" and s.items[0].context_expr.args and not s.items[0].context_expr.keywords \
+                    and not any(isinstance(a, ast.Starred) for a in s.items[0].context_expr.args):
+                args = s.items[0].context_expr.args
+                typ = args[0] if len(args) == 1 else ast.Tuple(elts=list(args), ctx=ast.Load())
+                h = ast.ExceptHandler(type=typ, name=None, body=[ast.Pass()])
+                t = ast.copy_location(ast.Try(body=s.body, handlers=[h], orelse=[], finalbody=[]), s)
+                ast.fix_missing_locations(t)
+                out.append(t)
+                nz._local_touched = True
+                nz.log.setdefault(fi.qname, []).append(f"`with suppress(...)` at line {getattr(s, 'lineno', '?')} written as try / except / pass")
+            elif isinstance(s, ast.With) and len(s.items) == 1 and s.items[0].optional_vars is None and isinstance(s.items[0].context_expr, ast.Call) \
+                    and _swallowing_cm(nz, fi, s.items[0].context_expr) is not None:
+                # a hand-written context manager whose __exit__ swallows exactly the exception classes it was built with (after logging them):
+                # with C(E1, E2): BODY  is  try: BODY / except (E1, E2) as e: <what __exit__ does before returning True>
+                call = s.items[0].context_expr
+                ev, extra = _swallowing_cm(nz, fi, call)
+                cargs = _expand_star_consts(nz, fi, call.args)
+                typ = cargs[0] if len(cargs) == 1 else ast.Tuple(elts=list(cargs), ctx=ast.Load())
+                nm = nz.fresh("caught")
+                hb = []
+                try:
+                    for x in extra:
+                        hb.append(Subst({ev: nm}, {}).visit(copy.deepcopy(x)))
+                except NotInlinable:
+                    out.append(s)
+                    continue
+                h = ast.ExceptHandler(type=typ, name=nm, body=hb or [ast.Pass()])
+                t = ast.copy_location(ast.Try(body=s.body, handlers=[h], orelse=[], finalbody=[]), s)
+                ast.fix_missing_locations(t)
+                out.append(t)
+                nz._local_touched = True
+                nz.log.setdefault(fi.qname, []).append(f"`with {norm(call.func)}(...)` at line {getattr(s, 'lineno', '?')} written as try / except (the class swallows what it was given)")
+            else:
+                out.append(s)
+        return out
+    return map_blocks(body, f)
+
+
+def _expand_star_consts(nz, fi, args):
+    """the argument list with *CONST written out when CONST is a module-level tuple / list literal; None when a star cannot be written out"""
+    out = []
+    for a in args:
+        if not isinstance(a, ast.Starred):
+            out.append(a)
+            continue
+        v = a.value
+        lit = None
+        if isinstance(v, (ast.Name, ast.Attribute)):
+            try:
+                r = nz.prog.resolve_name_expr(fi.module, v)
+            except Exception:
+                r = None
+            if r and r[0] == "const" and r[1].const_multi.get(r[2], 0) == 1 and isinstance(r[1].consts.get(r[2]), (ast.Tuple, ast.List)) and r[1] is fi.module:
+                lit = r[1].consts[r[2]]
+        if lit is None or any(isinstance(x, ast.Starred) for x in lit.elts):
+            return None
+        out.extend(copy.deepcopy(x) for x in lit.elts)
+    return out
+
+
+def _swallowing_cm(nz, fi, call):
+    """(name of __exit__'s exception-value parameter, statements __exit__ runs before `return True`) when `call` builds an instance of a class that is
+    not part of the pinned tree and is nothing but: __init__(self, *classes) storing them, __enter__ returning self, and
+    __exit__(self, t, v, tb):  if v is None or not isinstance(v, self.<classes>): return False;  <expression statements>;  return True"""
+    if call.keywords or not call.args or _expand_star_consts(nz, fi, call.args) is None:
+        return None
+    try:
+        r = nz.prog.resolve_name_expr(fi.module, call.func)
+    except Exception:
+        return None
+    if not (r and r[0] == "class") or r[1].qname in nz.baseline:
+        return None
+    ci = r[1]
+    ms = {m.name: m for m in ci.node.body if isinstance(m, ast.FunctionDef)}
+    if set(ms) != {"__init__", "__enter__", "__exit__"} or ci.node.bases and [norm(b) for b in ci.node.bases] != ["object"]:
+        return None
+    ini, ent, ext = ms["__init__"], ms["__enter__"], ms["__exit__"]
+    body_i = [x for x in ini.body if not (isinstance(x, ast.Expr) and isinstance(x.value, ast.Constant))]
+    if not (ini.args.vararg and len(ini.args.args) == 1 and not ini.args.kwarg and len(body_i) == 1 and isinstance(body_i[0], ast.Assign)
+            and len(body_i[0].targets) == 1 and isinstance(body_i[0].targets[0], ast.Attribute) and isinstance(body_i[0].value, ast.Name)
+            and body_i[0].value.id == ini.args.vararg.arg):
+        return None
+    field = body_i[0].targets[0].attr
+    body_e = [x for x in ent.body if not (isinstance(x, ast.Expr) and isinstance(x.value, ast.Constant))]
+    if not (len(body_e) == 1 and isinstance(body_e[0], ast.Return) and isinstance(body_e[0].value, ast.Name) and body_e[0].value.id == ent.args.args[0].arg):
+        return None
+    if len(ext.args.args) != 4 or ext.args.vararg or ext.args.kwarg:
+        return None
+    selfn, _t, ev, _tb = [a.arg for a in ext.args.args]
+    body_x = [x for x in ext.body if not (isinstance(x, ast.Expr) and isinstance(x.value, ast.Constant))]
+    if len(body_x) < 2 or not isinstance(body_x[0], ast.If) or body_x[0].orelse or not isinstance(body_x[-1], ast.Return):
+        return None
+    g = body_x[0]
+    want = f"{ev} is None or not isinstance({ev}, {selfn}.{field})"
+    if norm(g.test) != want or not (len(g.body) == 1 and isinstance(g.body[0], ast.Return) and isinstance(g.body[0].value, ast.Constant) and g.body[0].value.value is False):
+        return None
+    if not (isinstance(body_x[-1].value, ast.Constant) and body_x[-1].value.value is True):
+        return None
+    mid = body_x[1:-1]
+    if not all(isinstance(x, ast.Expr) and isinstance(x.value, ast.Call) for x in mid):
+        return None
+    if any(isinstance(n, ast.Name) and n.id in (selfn, _t, _tb) for x in mid for n in ast.walk(x)):
+        return None
+    return ev, mid
+
+
 def run(nz, body, fi):
+    body = lower_suppress(nz, body, fi)
     body = lower_match(nz, body, fi)
     body = hoist_walrus(nz, body, fi)
     touched = fi.qname in nz.log
@@ -181,6 +298,20 @@ def _pattern_test(subj, pat):
         if r is None:
             return None
         return r[0], r[1] + ([(pat.name, subj)] if pat.name else [])
+    if isinstance(pat, ast.MatchSequence) and isinstance(subj, (ast.Tuple, ast.List)) and len(pat.patterns) == len(subj.elts) \
+            and not any(isinstance(p, ast.MatchStar) for p in pat.patterns) and not any(isinstance(x, ast.Starred) for x in subj.elts):
+        # match (a, b): case (P, Q): -- element by element
+        tests, caps = [], []
+        for sub_s, sub_p in zip(subj.elts, pat.patterns):
+            r = _pattern_test(sub_s, sub_p)
+            if r is None:
+                return None
+            if r[0] is not True:
+                tests.append(r[0])
+            caps += r[1]
+        if not tests:
+            return True, caps
+        return (tests[0] if len(tests) == 1 else ast.BoolOp(op=ast.And(), values=tests)), caps
     if isinstance(pat, ast.MatchOr):
         tests = []
         for p in pat.patterns:
@@ -749,10 +880,13 @@ class Fold(ast.NodeTransformer):
                 return [first] + rest
         # a, b = x, y with independent pure right-hand sides: two assignments
         if len(n.targets) == 1 and isinstance(n.targets[0], (ast.Tuple, ast.List)) and isinstance(n.value, (ast.Tuple, ast.List)) \
-                and len(n.targets[0].elts) == len(n.value.elts) and all(isinstance(t, ast.Name) for t in n.targets[0].elts) \
+                and len(n.targets[0].elts) == len(n.value.elts) \
+                and all(isinstance(t, ast.Name) or (isinstance(t, ast.Attribute) and isinstance(t.value, ast.Name)) for t in n.targets[0].elts) \
                 and not any(isinstance(v, ast.Starred) for v in n.value.elts) and all(is_pure(v) for v in n.value.elts):
-            tn = {t.id for t in n.targets[0].elts}
-            if len(tn) == len(n.targets[0].elts) and not any(isinstance(x, ast.Name) and x.id in tn for v in n.value.elts for x in ast.walk(v)):
+            # self.a, self.b = x[0], x[1]: the right-hand sides read neither a target name nor a target field (all are evaluated before any store)
+            tn = {t.id if isinstance(t, ast.Name) else ("." + t.attr) for t in n.targets[0].elts}
+            reads_field = any(isinstance(x, ast.Attribute) and ("." + x.attr) in tn for v in n.value.elts for x in ast.walk(v))
+            if len(tn) == len(n.targets[0].elts) and not reads_field and not any(isinstance(x, ast.Name) and x.id in tn for v in n.value.elts for x in ast.walk(v)):
                 out = []
                 for t, v in zip(n.targets[0].elts, n.value.elts):
                     a = ast.copy_location(ast.Assign(targets=[t], value=v, lineno=n.lineno), n)
@@ -854,6 +988,7 @@ class Fold(ast.NodeTransformer):
             gen = c.args[0]
             app = ast.Expr(value=ast.Call(func=ast.Attribute(value=copy.deepcopy(c.func.value), attr="append", ctx=ast.Load()), args=[gen.elt], keywords=[]))
             self.nz._local_touched = True
+            self.nz.log.setdefault(self.nz.cur.qname, []).append(f"`{norm(c.func.value)}.extend(<generator>)` at line {getattr(n, 'lineno', '?')} written as a loop of appends")
             return self._gen_loop(gen, [ast.copy_location(app, n)], n)
         if isinstance(c, ast.Call) and isinstance(c.func, ast.Attribute) and c.func.attr == "extend" and len(c.args) == 1 and not c.keywords \
                 and isinstance(c.args[0], (ast.List, ast.Tuple)) and not any(isinstance(x, ast.Starred) for x in c.args[0].elts) and is_atom(c.func.value):
